@@ -9,8 +9,8 @@ from pathlib import Path
 from harness import common, rules
 from harness.common import Ctx, NCPU, s2n, n2s
 
-NAMES = ["A", "B", "core", "api", "db_layer", "x1", "Service", "util", "m2"]
-DOTTED = ["src.a", "src.b", "src.a.x", "pkg.core", "pkg.core.db", "app.ui"]
+NAMES = ["A", "B", "core", "api", "db_layer", "x1", "Service", "util", "m2", "m10", "cache", "auth", "Z9", "w", "queue", "mail"]
+DOTTED = ["src.a", "src.b", "src.a.x", "pkg.core", "pkg.core.db", "app.ui", "src.app.core.domain.api", "src.app.core.domain.api.v2", "a.b.c.d.e.f.g", "org.example.project.subsystem.component.impl"]
 ALIASES = ["a1", "c", "svc", "k9", "alias_b", "zz"]
 NOISE_IN = ["' a comment", "title My Diagram", "skinparam monochrome true", "left to right direction", "hide empty members", "", "scale 2"]
 NOISE_OUT = ["Some text before", "[Ghost] --> [Other]", "component Phantom", "# markdown heading", "", "see also the docs"]
@@ -18,7 +18,11 @@ NOISE_OUT = ["Some text before", "[Ghost] --> [Other]", "component Phantom", "# 
 
 def gen_diagram(rng):
     pool = rng.choice([NAMES, DOTTED, NAMES + DOTTED])
-    comps = rng.sample(pool, rng.randint(2, min(6, len(pool))))
+    if rng.random() < 0.12:
+        pool = NAMES + DOTTED
+        comps = rng.sample(pool, rng.randint(7, 14))          # now and then a large diagram
+    else:
+        comps = rng.sample(pool, rng.randint(2, min(6, len(pool))))
     alias = {}
     # aliases come from the dedicated pool AND from component names this diagram does not use: what is an alias here is an
     # ordinary component in another diagram parsed by the same interpreter (parsing must not remember earlier diagrams)
@@ -28,7 +32,7 @@ def gen_diagram(rng):
         if rng.random() < 0.4 and free:
             alias[c] = free.pop()
     rel = set()
-    for _ in range(rng.randint(0, 8)):
+    for _ in range(rng.randint(0, 8) if len(comps) <= 6 else rng.randint(8, 25)):
         a, b = rng.choice(comps), rng.choice(comps)
         if a != b:
             rel.add((a, b))
